@@ -34,8 +34,10 @@ from liquid2 import is_template_string_token
 from liquid2 import is_token_type
 from liquid2.exceptions import LiquidSyntaxError
 from liquid2.exceptions import LiquidTypeError
+from liquid2.exceptions import LiquidValueError
 from liquid2.exceptions import UnknownFilterError
 from liquid2.expression import Expression
+from liquid2.limits import MAX_STR_INT
 from liquid2.limits import to_int
 from liquid2.unescape import unescape
 
@@ -661,7 +663,7 @@ def parse_primitive(env: Environment, token: TokenT) -> Expression:  # noqa: PLR
         return Path(token, [token.value])
 
     if is_token_type(token, TokenType.INT):
-        return IntegerLiteral(token, to_int(float(token.value)))
+        return IntegerLiteral(token, _parse_int_literal(token))
 
     if is_token_type(token, TokenType.FLOAT):
         return FloatLiteral(token, float(token.value))
@@ -1162,7 +1164,7 @@ def parse_boolean_primitive(  # noqa: PLR0912
         else:
             left = Path(token, [token.value])
     elif is_token_type(token, TokenType.INT):
-        left = IntegerLiteral(token, to_int(float(token.value)))
+        left = IntegerLiteral(token, _parse_int_literal(token))
     elif is_token_type(token, TokenType.FLOAT):
         left = FloatLiteral(token, float(token.value))
     elif is_token_type(token, TokenType.DOUBLE_QUOTE_STRING):
@@ -2021,6 +2023,25 @@ def parse_parameters(env: Environment, tokens: TokenStream) -> dict[str, Paramet
             )
 
     return params
+
+
+def _parse_int_literal(token: Token) -> int:
+    """Return the integer written in an INT token, exactly.
+
+    INT tokens can have a positive exponent, like `1e3`. Going via `float` loses
+    precision above 2**53 and overflows above 1e308.
+    """
+    digits, _, exponent = token.value.lower().partition("e")
+    if not exponent:
+        return to_int(digits)
+
+    exp = to_int(exponent)
+    if MAX_STR_INT != 0 and len(digits) + exp > MAX_STR_INT:
+        raise LiquidValueError(
+            f"integer literal exceeds the limit of {MAX_STR_INT} digits",
+            token=token,
+        )
+    return to_int(digits) * 10**exp
 
 
 def is_truthy(obj: object) -> bool:
